@@ -838,7 +838,8 @@ def gen_broken(draw, t, ctx, env_for_oracle, depth=0, top=True):
                     return V("tuple" if k == "tuple_var" else draw(st.sampled_from(["list", "tuple"])), items=items), r[1] + 1
         if k == "tuple_fixed":
             i = draw(st.integers(0, len(t["items"]) - 1))
-            r = gen_broken(draw, t["items"][i], ctx, env_for_oracle, depth + 1, False)
+            wrong_length = draw(st.integers(0, 2)) == 0
+            r = None if wrong_length else gen_broken(draw, t["items"][i], ctx, env_for_oracle, depth + 1, False)
             if r is not None:
                 items = [gen_value(draw, x, ctx, depth + 1) for x in t["items"]]
                 if all(g is not None for g in items):
@@ -847,6 +848,8 @@ def gen_broken(draw, t, ctx, env_for_oracle, depth=0, top=True):
             # wrong length is also a definite break
             items = [gen_value(draw, x, ctx, depth + 1) for x in t["items"]]
             if all(g is not None for g in items):
+                if len(items) > 1 and draw(st.booleans()):
+                    return V("tuple", items=items[:-1]), 1
                 return V("tuple", items=items + [items[0]]), 1
         if k == "map":
             r = gen_broken(draw, t["v"], ctx, env_for_oracle, depth + 1, False)
